@@ -21,12 +21,27 @@ one of its data-dependent decisions on C of F, QF or FQ, is the same root cause 
 `eigen_sym33_unit|batched|branch-decision-tie`; anything else is an ordinary violation.
 The rest state of an option is checked first; if it is broken (e.g. D3, J2 'seth hill') that one finding
 `<model>|<option>|virgin-state|nonzero-energy-or-nan` is reported and the product is not run for that option.
+
+Evolved internal states (models that carry state: HyperViscoelastic, MultiBranchHyperViscoelastic, J2Plastic 'large
+deformations' and 'seth hill'): after the virgin-state product, an E-BFS on the REAL compute_state_new (single compiled
+calls, from the library's own virgin state, all histories of pre-load actions up to depth 2 quick / 3 thorough, successors
+de-duplicated on the state rounded to 1e-10, as C09-C11) enumerates the reachable internal states; at every such state the
+objectivity clause W(QF; state) = W(F; state) for the 28 rotations and the symmetry of the Kirchhoff stress are checked over
+a probing alphabet of deformation gradients, in both execution modes, with the same tolerances and the same D11 protocol
+(the spectrum class is then measured on the tensor the model really decomposes, C_e = Fe^T Fe with Fe = F Fin^-1 per
+branch).  The right-rotation clause W(FQ) = W(F) is NOT demanded there: an internal state defined in the reference frame
+legitimately breaks it.  For J2 the energy at (H, state) includes the implicit update (the pre-loads yield; most probes
+yield again): probes for which F and some QF lie within 1e-6 Y0 of, or on different sides of, the yield switch (measured
+with the J2 reference model) are excluded and counted.  If the virgin-state product of an option already produced an
+ordinary violation the evolved exploration of that option is skipped (one defect, one key); a failure that exists only at
+evolved states is reported as `<model>|<any-mode / batched-only>|evolved-state|<signature>`.
 """
 import numpy as onp
 
 ID = "C08"
 TITLE = ("Energy densities of all material models: W(QF) = W(FQ) = W(F) for 28 rotations, symmetric Kirchhoff stress, "
-         "zero energy and stress at the undeformed virgin state; single-call and batched execution")
+         "zero energy and stress at the undeformed virgin state; W(QF; state) = W(F; state) and symmetric Kirchhoff stress "
+         "also at every internal state reached by the real update within the depth bound; single-call and batched execution")
 LEVEL = "model_checking"
 RULE = ("E-PROD: model option x moduli set (3) x deformation gradient (uniaxial strain along 6 in-plane axes x 10 "
         "stretches, equibiaxial, dilation, 3-D R1 L R2^T over stretch triples x rotation pairs) x superposed rotation "
@@ -34,7 +49,20 @@ RULE = ("E-PROD: model option x moduli set (3) x deformation gradient (uniaxial 
         "compared with W(F) (case id = the labels), plus one case per deformation for the Kirchhoff stress and one per "
         "option / moduli set / mode for the rest state. Non-trivial (measured with numpy on C = F^T F) = two or three "
         "principal stretches coincide within 1e-6 relative (the eigen-solver's degeneracy switches) or the largest "
-        "stretch is >= 2.")
+        "stretch is >= 2. "
+        "EVOLVED STATES (models with internal state): E-BFS from the virgin state on the real compute_state_new over all "
+        "histories of pre-load actions up to depth 2 (quick) / 3 (thorough) -- viscous: target {uniaxial stretch 1.4 along x, "
+        "simple shear 0.4, stretch 1.3 along the in-plane axis at 30 degrees} x dt/tau {0.1, 10} = 6 actions; J2: the same three "
+        "patterns x amplitude {2.5, 8} yield strains (all beyond yield) = 6 actions -- per moduli set, successors "
+        "de-duplicated on the internal state rounded to 1e-10; then E-PROD reached state x probing deformation (45 quick / 54 "
+        "thorough: uniaxial along 6 in-plane axes x 5 stretches, equibiaxial, dilation, 3-D triples, simple shears, and 'hold' = "
+        "the deformation of the state's last pre-load step) x superposed "
+        "rotation (28, left side only) x execution mode; one case = W(QF; state) of the real energy compared with W(F; state) "
+        "(case id = model, moduli set, action history of the state, deformation, rotation, mode), plus one case per (state, "
+        "deformation, mode) for the Kirchhoff stress. Non-trivial at an evolved state (measured with numpy) = the state differs "
+        "from the virgin one by > 1e-10 AND the probing deformation is not coaxial with it: |C B - B C| > 1e-6 |C||B| for C = "
+        "F^T F and B = (Fin^T Fin)^-1 of some branch (Seth-Hill: B = plastic strain); coaxial pairs cannot distinguish F Fin^-1 "
+        "from Fin^-1 F.")
 ASSUMPTIONS = [
     "oracle is the statement itself evaluated on what the real code returns (invariance, symmetry, zero at rest); the "
     "reference side (mc/ref/material_ref.py, numpy only) supplies the alphabets, the measured classes (principal "
@@ -53,6 +81,25 @@ ASSUMPTIONS = [
     "deformations) are exempt from objectivity by the statement: rest state only; default options (key absent): rest state only",
     "x64, CPU; batched mode always in padded chunks of exactly 256 (pad = undeformed state)",
     "D11 classification by the measured relative gap of C = F^T F (<= 1e-6), same rule as C12",
+    "evolved states: the internal states are those the REAL compute_state_new returns (single compiled calls; the update rule "
+    "is not re-implemented and not judged here -- C09 / C11 do that; a non-finite successor is dropped and counted); the "
+    "reference side supplies the pre-load and probing alphabets, the view of a state as viscous / plastic distortions per "
+    "branch, the spectrum class of C_e = Fe^T Fe (Fe = F Fin^-1 per branch; C itself for Seth-Hill, whose state is additive), "
+    "the coaxiality measure and the J2 yield side",
+    "evolved states, constants: the three moduli sets of the product with their own time step (dt/tau = 1e-3, 1, 1e2: the "
+    "probing step spans instantaneous to relaxed response); pre-load steps dt = (0.1, 10) tau (multi-branch: tau of the middle "
+    "branch, so the branches see dt/tau_k from 0.01 to 100); J2: yield strength 0.02 E (instead of 10 E) and hardening 0.1 E, so "
+    "that every pre-load target is beyond yield from the virgin state (a later step can be elastic unloading: it returns the "
+    "state unchanged and merges; flow / no flow is measured on the returned state and counted) and probes fall on both sides "
+    "of the yield switch",
+    "evolved states, J2: the energy at (H, state) includes the implicit radial-return update; objectivity must still hold "
+    "because the trial elastic strain is objective. Probes with |trial Mises - flow stress - 1e-10 Y0| <= 1e-6 Y0 for F or any "
+    "QF, or with F and QF on different sides (J2 reference model on the real state), are excluded and counted; the 'hold' "
+    "probe (deformation of the last pre-load step: the committed state sits on the yield surface to the root tolerance 1e-10 Y0) "
+    "is such a probe for every J2 state, so the exclusion is exercised; for the viscous models 'hold' is judged like any probe",
+    "evolved states: W(FQ; state) = W(F; state) is NOT demanded (the internal state lives in the reference frame); if the "
+    "virgin-state product of an option has an ordinary violation its evolved exploration is skipped",
+    "evolved states, batched mode: one internal state per row, padding rows = undeformed virgin state, same chunk length 256",
 ]
 TAU_REL = 1e-10
 TAU_ABS = 1e-12
@@ -74,6 +121,19 @@ TOLERANCES = {
     "rest state |W(0)|, max|dW/dH(0)|": "<= 1e-14 M (exact zero expected; observed exactly 0 for 92 of 102 rest cases, "
                                         "1.04e-16 M otherwise)",
     "D11 classification": "relative gap of C = F^T F <= 1e-6; decision tie: margin <= 1e-6 in the float64 replica",
+    "evolved states |W(QF; state) - W(F; state)|": "same form: <= 1e-10 |W(F)| + 1e-12 M c (+ eigen-solver term when the relative "
+        "gap of C_e <= 1e-6, with stretch ratio and log stretch of Fe), c = 1 (viscous models, invariant type) / max|log "
+        "stretch of F| + max|log stretch of Fe| (J2 finite) / max|log stretch of F| + max|plastic strain| (Seth-Hill). "
+        "Worst observed single-call, quick seeds 0-2 and thorough seed 0: 7.5e-4 of the tolerance (separated spectrum of C_e), "
+        "4.6e-6 (repeated); relative part 2.9e-14 |W| (W > 1e-2 M); absolute part 1.8e-13 M (invariant type), 4.6e-14 M c "
+        "(strain type); W(value_and_grad) vs W(energy) 3.3e-5 of the tolerance. Batched, separated spectrum: the same numbers",
+    "evolved states Kirchhoff stress |P F^T - F P^T|_F": "same as at the virgin state (worst observed 1.5e-5 of the tolerance, "
+        "1.9e-16 (|P||F| + M|F|^2))",
+    "evolved states, effect of a frame-dependent elastic strain": "Fe = Fin^-1 F instead of F Fin^-1 (seeded change C08-2 and "
+        "the three mutants c08_evolved_*) changes W by O(1) |W| and makes the Kirchhoff stress unsymmetric by O(1) |P||F|: "
+        ">= 10 orders above the tolerance",
+    "evolved states, J2 yield-switch band": "1e-6 Y0 around the library's test trial Mises - flow stress > 1e-10 Y0",
+    "evolved states, state de-duplication": "internal state rounded to 1e-10 (all tolerances above are coarser in the state)",
 }
 
 D11_KEY = "eigen_sym33_unit|batched|near-repeated-spectrum"
@@ -118,7 +178,16 @@ def bounds(tier):
             "moduli_sets": [l for l, _, _ in R.MODULI], "deformation_gradients": len(defs),
             "stretches": [l for l, _ in R.STRETCHES], "in_plane_axes": [l for l, _ in R.THETAS],
             "rotations": len(R.rotations(0)), "sides": ["QF", "FQ"],
-            "execution_modes": ["single", "batched(chunk %d, padded)" % BATCH], "d11_gap_threshold": 1e-6}
+            "execution_modes": ["single", "batched(chunk %d, padded)" % BATCH], "d11_gap_threshold": 1e-6,
+            "evolved_states": {
+                "models": [option_name(m, o) for m, o, k, _, _ in OPTIONS if k == "finite" and Model(m, o).has_state],
+                "bfs_depth": _depth(tier), "state_canon_rounding": R.CANON_STATE,
+                "preload_actions_viscous": ["%s@dt/tau=%s" % (l, rl) for l, _ in R.preload_targets_visco()
+                                            for rl, _ in R.PRELOAD_DT_RATIOS],
+                "preload_actions_j2": [l for l, _ in R.preload_targets_j2(1.0)],
+                "histories_per_model_and_moduli_set": sum(6 ** d for d in range(1, _depth(tier) + 1)),
+                "probing_deformations": len(R.probe_deformations(tier, 0)) + 1, "rotations": len(R.rotations(0)),
+                "sides": ["QF"], "j2_yield_strength_over_E": J2_EVOLVED_YIELD, "j2_yield_switch_band": YIELD_SWITCH_BAND}}
 
 
 def groups(tier, seed):
@@ -576,7 +645,7 @@ def _depth(tier):
 def _explore(mdl, upd1, acts, p, maxd, ml, rec):
     """E-BFS on the REAL compute_state_new from the virgin state (single compiled calls, as C10: nothing of D11 can leak
     into the states), all action histories up to depth maxd, successors de-duplicated on the internal state rounded to 1e-10.
-    Returns [(history label, state)] of the distinct non-virgin states, in discovery order."""
+    Returns [(history label, state, last pre-load target)] of the distinct non-virgin states, in discovery order."""
     from mc.ref import material_ref as R
 
     def canon(x):
@@ -610,7 +679,7 @@ def _explore(mdl, upd1, acts, p, maxd, ml, rec):
                 seen.add(k)
                 rec.state(repr((mdl.name, ml) + k))
                 rec.depth(depth)
-                found.append((lab, s1))
+                found.append((lab, s1, Ht))
                 nxt.append((lab, s1))
         frontier = nxt
     return found
@@ -625,15 +694,14 @@ def _run_evolved(mdl, prog, cancel, tier, seed, rec):
     from mc.core import stable_hash
     model, opt = mdl.model, mdl.opt
     upd1 = jax.jit(mdl.update)
-    probes = R.probe_deformations(tier, seed)
+    # probing alphabet: the fixed deformations plus, per state, 'hold' = the deformation of the last pre-load step (the point
+    # at which a simulation evaluates the energy first after committing the state; for J2 it sits on the yield surface)
+    probes = R.probe_deformations(tier, seed) + [("hold:last-pre-load-target", "hold", None)]
     rots = R.rotations(seed)
     nD, nQ = len(probes), len(rots)
     per = 1 + nQ
-    F = onp.stack([f for _, _, f in probes])
+    Fcommon = onp.stack([f for _, _, f in probes[:-1]])
     Q = onp.stack([q for _, q in rots])
-    Fall = onp.concatenate([F[:, None], onp.einsum("qij,fjk->fqik", Q, F)], axis=1)            # (nD, per, 3, 3): F, QF
-    infoF = R.stretch_info(F)
-    normF = R.fro(F)
     j2ref = None
     if model == "J2Plastic":
         from mc.ref.j2_ref import J2Ref
@@ -646,20 +714,24 @@ def _run_evolved(mdl, prog, cancel, tier, seed, rec):
             rec.branch("evolved: no state other than the virgin one was reached (%s)" % mdl.name)
             continue
         nS = len(states)
-        S = onp.stack([st for _, st in states])
+        S = onp.stack([st for _, st, _ in states])
+        F = onp.stack([onp.concatenate([Fcommon, (R.I3 + Ht)[None]]) for _, _, Ht in states])       # (nS, nD, 3, 3)
+        Fall = onp.concatenate([F[:, :, None], onp.einsum("qij,sfjk->sfqik", Q, F)], axis=2)        # (nS, nD, per, 3, 3): F, QF
+        infoF = R.stretch_info(F)
+        normF = R.fro(F)
         how, X = R.state_parts(model, opt, S)                                             # (nS, nb, 3, 3)
         # ---- measured classes (reference side, from the inputs only) ------------------------------------------
-        einfo = R.elastic_info(F[None], how, X[:, None])                                  # (nS, nD)
+        einfo = R.elastic_info(F, how, X[:, None])                                        # (nS, nD)
         gapE, gap2E = einfo["gap"], einfo["gap2"]
-        noncoax = R.noncoaxiality(F[None], how, X[:, None])                               # (nS, nD)
+        noncoax = R.noncoaxiality(F, how, X[:, None])                                     # (nS, nD)
         moved = onp.abs(S - mdl.s0[None]).max(axis=1)                                     # (nS,)
         if how == "multiplicative":
-            strain_scale = infoF["logmax"][None] + einfo["logmax"]
+            strain_scale = infoF["logmax"] + einfo["logmax"]
         else:
-            strain_scale = infoF["logmax"][None] + onp.abs(X).max(axis=(-3, -2, -1))[:, None]
+            strain_scale = infoF["logmax"] + onp.abs(X).max(axis=(-3, -2, -1))[:, None]
         c_abs = onp.ones((nS, nD)) if cancel == "invariant" else strain_scale + 1e-16
         eig_term = onp.where((gapE <= 1e-6) & mdl.eigen_based, TAU_EIG * einfo["ratio"] ** 2 * (einfo["logmax"] + 1e-16), 0.0)
-        Hrows = onp.broadcast_to((Fall - R.I3)[None], (nS, nD, per, 3, 3))
+        Hrows = Fall - R.I3
         Srows = onp.broadcast_to(S[:, None, None, :], (nS, nD, per, S.shape[1]))
         excluded = onp.zeros((nS, nD), dtype=bool)
         regime = onp.full((nS, nD), "relaxing", dtype=object)
@@ -703,9 +775,9 @@ def _run_evolved(mdl, prog, cancel, tier, seed, rec):
             tolW = TAU_REL * onp.abs(W0) + TAU_ABS * M * c_abs + M * eig_term
             with onp.errstate(all="ignore"):
                 dL = onp.abs(Wm[..., 1:] - W0[..., None])
-                Kt = Pb @ onp.swapaxes(F, -1, -2)[None]
+                Kt = Pb @ onp.swapaxes(F, -1, -2)
                 asym = R.fro(Kt - onp.swapaxes(Kt, -1, -2))
-                tolK = TAU_REL * R.fro(Pb) * normF[None] + (TAU_ABS + eig_term) * M * normF[None] ** 2
+                tolK = TAU_REL * R.fro(Pb) * normF + (TAU_ABS + eig_term) * M * normF ** 2
                 dvg = onp.abs(Wb - W0)
             okL = dL <= tolW[..., None]             # False for NaN
             okK = (asym <= tolK) & (dvg <= tolW)
@@ -730,13 +802,13 @@ def _run_evolved(mdl, prog, cancel, tier, seed, rec):
                 if mK.any():
                     rec.track_max("evolved|kirchhoff|%s|%s|asymmetry/tolerance" % (mode, rc), float((asym / tolK)[mK].max()))
                     rec.track_max("evolved|kirchhoff|%s|%s|asymmetry/(|P||F| + M|F|^2)" % (mode, rc),
-                                  float((asym / (R.fro(Pb) * normF[None] + M * normF[None] ** 2))[mK].max()))
+                                  float((asym / (R.fro(Pb) * normF + M * normF ** 2))[mK].max()))
                     rec.track_max("evolved|programs|%s|%s||W(value_and_grad) - W(energy)|/tolerance" % (mode, rc),
                                   float((dvg / tolW)[mK].max()))
 
         def eig_tensors(a, k, q):
             out = []
-            for nm, G in (("F", F[k]),) + ((("QF", Q[q] @ F[k]),) if q is not None else ()):
+            for nm, G in (("F", F[a, k]),) + ((("QF", Q[q] @ F[a, k]),) if q is not None else ()):
                 Ce = R.elastic_info(G, how, X[a])["Ce"]
                 out += [("Ce[branch %d](%s)" % (b, nm), Ce[b]) for b in range(Ce.shape[0])]
             return out
@@ -746,7 +818,7 @@ def _run_evolved(mdl, prog, cancel, tier, seed, rec):
                 continue
             J = judged[mode]
             sj = judged.get("single")
-            for a, (sl, st) in enumerate(states):
+            for a, (sl, st, _) in enumerate(states):
                 for k, (dl, kind_d, _) in enumerate(probes):
                     if excluded[a, k]:
                         continue
@@ -766,7 +838,7 @@ def _run_evolved(mdl, prog, cancel, tier, seed, rec):
                                                          else "energy-differs-between-programs")
                             outcome = _report(rec, mdl, mode, cid, clsE, gapE[a, k], sig,
                                               single_ok=(None if sj is None else bool(sj["okK"][a, k])),
-                                              detail={"F": F[k], "constants": p, "dt": dt, "state": st, "state_history": sl,
+                                              detail={"F": F[a, k], "constants": p, "dt": dt, "state": st, "state_history": sl,
                                                       "stress": J["Pb"][a, k], "kirchhoff_asymmetry": J["asym"][a, k],
                                                       "tolerance": J["tolK"][a, k], "W_value_and_grad": J["Wb"][a, k],
                                                       "W_energy_program": J["W0"][a, k], "noncoaxiality": noncoax[a, k]},
@@ -785,13 +857,13 @@ def _run_evolved(mdl, prog, cancel, tier, seed, rec):
                             sig = "nan" if not onp.isfinite(J["dL"][a, k, q]) else "not-objective(QF)"
                             outcome = _report(rec, mdl, mode, cid, clsE, gapE[a, k], sig,
                                               single_ok=(None if sj is None else bool(sj["okL"][a, k, q])),
-                                              detail={"F": F[k], "Q": Q[q], "constants": p, "dt": dt, "state": st,
+                                              detail={"F": F[a, k], "Q": Q[q], "constants": p, "dt": dt, "state": st,
                                                       "state_history": sl, "W(F)": J["W0"][a, k], "W(QF)": J["Wm"][a, k, 1 + q],
                                                       "tolerance": J["tolW"][a, k], "noncoaxiality": noncoax[a, k]},
                                               tensors=lambda a=a, k=k, q=q: eig_tensors(a, k, q))
                         samp = None
                         if mode == "single" and stable_hash("%d|%s" % (seed, cid)) % 19997 == 0:
-                            samp = {"case": cid, "F": F[k], "Q": Q[q], "state": st, "W(F)": J["W0"][a, k],
+                            samp = {"case": cid, "F": F[a, k], "Q": Q[q], "state": st, "W(F)": J["W0"][a, k],
                                     "W(QF)": J["Wm"][a, k, 1 + q]}
                         rec.case(cid, nontrivial=nontriv, outcome=outcome, steps=2, sample=samp)
                     rec.branch("evolved probe:%s:%s:%s" % (kind_d, clsE, coax))
